@@ -24,12 +24,13 @@ func CopyEvent(e *gostatsd.Event) *gostatsd.Event {
 
 // Sink is a capturing PipelineHandler. It deep-copies what it receives at the time of the call.
 type Sink struct {
-	mu      sync.Mutex
-	Maps    []*gostatsd.MetricMap
-	RawMaps []*gostatsd.MetricMap
-	Events  []*gostatsd.Event
-	Tags    int
-	notify  chan struct{}
+	mu        sync.Mutex
+	Maps      []*gostatsd.MetricMap
+	RawMaps   []*gostatsd.MetricMap
+	Events    []*gostatsd.Event
+	RawEvents []*gostatsd.Event
+	Tags      int
+	notify    chan struct{}
 	// Gate, when non-nil, is received from before DispatchEvent returns (lets a harness hold deliveries).
 	WaitCalls int32
 }
@@ -58,6 +59,7 @@ func (s *Sink) DispatchEvent(ctx context.Context, e *gostatsd.Event) {
 	c := CopyEvent(e)
 	s.mu.Lock()
 	s.Events = append(s.Events, c)
+	s.RawEvents = append(s.RawEvents, e)
 	s.mu.Unlock()
 	s.poke()
 }
@@ -102,7 +104,7 @@ func (s *Sink) WaitUntil(d time.Duration, cond func(maps []*gostatsd.MetricMap, 
 
 func (s *Sink) Reset() {
 	s.mu.Lock()
-	s.Maps, s.RawMaps, s.Events = nil, nil, nil
+	s.Maps, s.RawMaps, s.Events, s.RawEvents = nil, nil, nil, nil
 	s.mu.Unlock()
 }
 
